@@ -28,6 +28,10 @@ def run(op, a):
         bitcoin.SelectParams(CHAINS[a[0]])
         try:
             key = CKey(a[1], bool(a[2]))
+            if (a[1][-1] + len(a[3])) % 2 == 0:
+                # the same key obtained the way wallets hold it: the WIF class (parsed back from its text)
+                from bitcoin.wallet import CBitcoinSecret
+                key = CBitcoinSecret(str(CBitcoinSecret.from_secret_bytes(a[1], bool(a[2]))))
             m = BitcoinMessage(a[3].decode('utf-8'))
             sig = SignMessage(key, m)
             # OpenSSL's nonce is random: for one message in four keep signing until r or s has a leading
